@@ -51,3 +51,26 @@ Definition process_response (unwrap : unwrap_fn) (auth : bool) (offs : option (Z
     else Ok r
   | _ => Raise ValueError
   end.
+
+(* _process_response for an arbitrary resp_type (a PDU class := its packet type): what _send_pdu hands back during bind()
+   (resp_type = BindAck / AlterContextResponse) as well as for a request.  Same order of checks: BindNak, Fault,
+   `type(pdu_resp) is not resp_type`, unsealed reply to a sealed request. *)
+Definition pdu_ptype (p : pdu) : Z :=
+  match p with
+  | PRequest _ => c_PT_REQUEST | PResponse _ => c_PT_RESPONSE | PFault _ => c_PT_FAULT
+  | PBind _ => c_PT_BIND | PBindAck _ => c_PT_BIND_ACK | PBindNak _ => c_PT_BIND_NAK
+  | PAlterContext _ => c_PT_ALTER_CONTEXT | PAlterContextResp _ => c_PT_ALTER_CONTEXT_RESP
+  end.
+Definition class_check (resp_type : Z) (p : pdu) : res pdu :=
+  match p with
+  | PBindNak _ => Raise ValueError
+  | PFault _ => Raise ValueError
+  | _ => if negb (pdu_ptype p =? resp_type) then Raise ValueError else Ok p
+  end.
+Definition process_pdu_as (resp_type : Z) (unwrap : unwrap_fn) (auth : bool) (offs : option (Z * Z)) (sign : bool)
+    (hdr : pdu_header) (resp : bytes) : res pdu :=
+  let* clear := unseal unwrap auth offs sign hdr resp in
+  let* (p, _ticks) := pdu_unpack (S (length clear)) clear in
+  let* q := class_check resp_type p in
+  if k_reject_unsealed auth (match offs with Some _ => true | None => false end) (h_auth_len hdr) then Raise ValueError
+  else Ok q.
